@@ -65,3 +65,8 @@ VARIANTS = [
       "    df_ub[:] = distances.flatten()\n    df_ub.sort()\n",
       "    df_ub[:] = np.sort(distances.flatten())\n", "silent"),
 ]
+
+VARIANTS += [
+    V("bounds-buffers-one-row-only", I, "    n *= n\n", "", "fire", "D9.3",
+      "found by the mutation survey: buffers of n instead of n*n cells"),
+]
